@@ -4,6 +4,7 @@ import (
 	"fmt"
 
 	"verifharness/engine"
+	"verifharness/simdisk"
 )
 
 // Params steer the queue program generator.
@@ -12,6 +13,7 @@ type Params struct {
 	Reopen   int // percent per step group
 	BigEvent int // percent of events spanning several pages
 	Lag      int // how far the consumer may lag before the generator prefers consuming
+	Fault    int // percent of the explicit flushes / ACKs that run with an injected I/O fault
 }
 
 // RandomConfig draws a queue configuration.
@@ -135,11 +137,23 @@ func Run(r *engine.RNG, cfg Config, p Params) *Session {
 			}
 			s.Next()
 		case w < 55:
-			s.Flush()
+			if r.Chance(p.Fault) {
+				// an I/O error inside the flush transaction: the events stay buffered, a later flush delivers them
+				s.withFault(r, func() { s.Flush() })
+				s.mark("flush-under-fault")
+				if r.Chance(60) {
+					s.Flush()
+				}
+			} else {
+				s.Flush()
+			}
 		case w < 85:
 			s.drain(r, 1+r.Intn(5))
 		case w < 92:
-			if s.Consumed > s.Acked {
+			if s.Consumed > s.Acked && r.Chance(p.Fault) {
+				s.withFault(r, func() { s.ACK(1 + r.Intn(s.Consumed-s.Acked)) })
+				s.mark("ack-under-fault")
+			} else if s.Consumed > s.Acked {
 				s.ACK(1 + r.Intn(s.Consumed-s.Acked))
 			} else if r.Chance(20) {
 				s.ACK(0)
@@ -398,4 +412,23 @@ func ExactFill(r *engine.RNG, cfg Config, slack int) *Session {
 	s.drain(r, 1<<30)
 	s.Counters()
 	return s
+}
+
+// withFault runs fn while one kind of I/O call fails (the n-th next call of that kind, burst 1-2).
+func (s *Session) withFault(r *engine.RNG, fn func()) {
+	kinds := []string{"write", "write", "sync", "sync"}
+	kind := kinds[r.Intn(len(kinds))]
+	base, _ := s.Disk.CallCounts()
+	from := base[kind] + r.Intn(3)
+	burst := 1 + r.Intn(2)
+	s.Disk.SetFault(func(k string, n, total int) simdisk.Action {
+		if k == kind && n >= from && n < from+burst {
+			s.ioFault = true
+			return simdisk.ActErr
+		}
+		return simdisk.ActOK
+	})
+	s.ioFault = false
+	fn()
+	s.Disk.SetFault(nil)
 }
